@@ -425,11 +425,21 @@ def variants_for(reply, is_proof_reply):
     if reply.tlv is not None:
         out += [("error", "tlv"), ("garbage", "tlv")]
         out += [("missing", f) for f in reply.fields]
+        # every documented HAP error code, alone and with the BackOff (retry delay) item next to it
+        for code in ERROR_CODES:
+            out += [("error", "tlv:%s" % code), ("error", "tlv:%s+backoff" % code)]
+    if reply.proto == "companion" and reply.tlv is not None:
+        # well-formed OPACK of the wrong type where the pairing data / the message dict should be
+        out += [("garbage", "pd:str"), ("garbage", "pd:int"), ("garbage", "pd:array"), ("garbage", "root:array")]
     if reply.proto == "http":
         out.append(("error", "http500"))
+        if reply.tlv is not None:
+            out.append(("garbage", "body:text"))      # the TLV delivered as a text body
         if reply.phase == "plist":
             out.append(("garbage", "body"))
             out += [("missing", f) for f in reply.fields]
+            # well-formed binary plists whose ROOT is not a dict but names the expected keys
+            out += [("garbage", "root:" + t) for t in ("str", "array", "int", "data", "nested")]
     if is_proof_reply:
         out.append(("wrongpin", "-"))
     for field in INNER_FIELDS.get(reply.label, []):
@@ -452,6 +462,11 @@ def variants_for(reply, is_proof_reply):
 
 
 SHAPES = ["empty", "prefix", "extended"]
+ERROR_CODES = ["Unknown", "Authentication", "BackOff", "MaxPeers", "MaxTries", "Unavailable", "Busy"]
+
+
+def is_code_variant(kind, variant):
+    return kind == "error" and str(variant).startswith("tlv:")
 
 
 def is_value_variant(variant):
@@ -508,9 +523,35 @@ def mutate(codec, reply, kind, variant, rng):
     if reply.phase == "plist" and kind == "missing":
         plist = {k: v for k, v in reply.raw[1].items() if k != variant}
         return codec.encode(reply.raw[0], body=plistlib.dumps(plist, fmt=plistlib.FMT_BINARY))
+    if reply.phase == "plist" and kind == "garbage" and variant.startswith("root:"):
+        keys = sorted(reply.raw[1])
+        root = {"str": "pairing failed: " + " does not match ".join(keys), "array": ["invalid"] + keys, "int": 7,
+                "data": " ".join(keys).encode(), "nested": [dict(reply.raw[1])]}[variant[5:]]
+        return codec.encode(reply.raw[0], body=plistlib.dumps(root, fmt=plistlib.FMT_BINARY))
+    if kind == "garbage" and variant == "body:text":
+        resp = reply.raw[0]
+        from pyatv.support.http import HttpResponse, format_response
+        headers = {k: v for k, v in dict(resp.headers).items() if k.lower() not in ("content-length", "content-type")}
+        headers["Content-Type"] = "text/plain"
+        return format_response(HttpResponse(resp.protocol, resp.version, resp.code, resp.message, headers,
+                                            "pairing data: " + binascii.hexlify(resp.body).decode()))
+    if kind == "garbage" and variant in ("pd:str", "pd:int", "pd:array", "root:array"):
+        ftype, payload = reply.raw
+        names = ["salt", "publickey", "proof", "encrypteddata"]
+        if variant == "root:array":
+            return ("frame", ftype, ["_pd"] + names)
+        wrong = {"pd:str": " ".join(names), "pd:int": 6, "pd:array": names}[variant]
+        return ("frame", ftype, dict(payload, _pd=wrong))
     seqno = reply.tlv.get(int(TlvValue.SeqNo), b"\x00")
     if kind == "error":
-        return codec.with_tlv(reply, write_tlv({TlvValue.SeqNo: seqno, TlvValue.Error: bytes([ErrorCode.Authentication])}))
+        code, backoff = "Authentication", False
+        if variant.startswith("tlv:"):
+            code, _, extra = variant[4:].partition("+")
+            backoff = extra == "backoff"
+        items = {TlvValue.SeqNo: seqno, TlvValue.Error: bytes([ErrorCode[code]])}
+        if backoff:
+            items[TlvValue.BackOff] = rng.randrange(1, 600).to_bytes(2, "little")
+        return codec.with_tlv(reply, write_tlv(items))
     if kind == "garbage":
         return codec.with_tlv(reply, _garbage_tlv(rng, [k for k in reply.tlv if k != int(TlvValue.SeqNo)]))
     if kind == "missing":
@@ -1330,6 +1371,19 @@ def run(ctx, only=None):
                 # faults inside sealed sub-messages: quick tier with stored credentials (AA) only,
                 # thorough tier for the initial states NN, AA, AB, BA
                 faults = [f for f in faults if not str(f[2]).startswith(("inner", "device:"))]
+            # error codes x BackOff item: all 14 per TLV reply in the thorough tier for NN and AA; otherwise
+            # per TLV reply the documented back-off reply (Error=BackOff + BackOff item) and one seed-chosen other
+            if not (ctx.thorough and prior in ("NN", "AA")):
+                crng = ctx.rng.fork("codes", name, prior)
+                keep = []
+                for i in sorted({f[0] for f in faults if is_code_variant(f[1], f[2])}):
+                    codes = [f for f in faults if f[0] == i and is_code_variant(f[1], f[2])]
+                    if ctx.thorough or prior == "AA":
+                        keep.append(next(f for f in codes if f[2] == "tlv:BackOff+backoff"))
+                        keep.append(crng.choice([f for f in codes if f[2] != "tlv:BackOff+backoff"]))
+                    elif prior != "NN":
+                        keep.append(crng.choice(codes))
+                faults = [f for f in faults if not is_code_variant(f[1], f[2]) or f in keep]
             for fault in (faults if full else reduced_faults(ctx, name, prior, faults)):
                 nrep = reps if (fault[1] == "garbage" and full) else 1
                 for rep in range(nrep):
